@@ -1,0 +1,20 @@
+// Copyright 2025 The Go Authors. All rights reserved.
+// Use of this source code is governed by a BSD-style
+// license that can be found in the LICENSE file.
+
+//go:build verif
+
+package sha3
+
+import _ "embed"
+
+// Verification hooks (build tag "verif" only).
+
+// VerifKeccakfSource is the text of legacy_keccakf.go as compiled into this binary. The Lean model
+// of keccakF1600 is generated from it; the harness re-derives the statement hash from this text.
+//
+//go:embed legacy_keccakf.go
+var VerifKeccakfSource string
+
+// VerifKeccakF1600 exposes the unexported permutation.
+func VerifKeccakF1600(a *[25]uint64) { keccakF1600(a) }
